@@ -204,15 +204,18 @@ def main():
         "setup_cmd": "bin/setup",
         "hooks": {
             "guard": "smartcalc_verif",
-            "enable": "rustflags --cfg smartcalc_verif in harness/.cargo/config.toml (the harness builds /repo as a path dependency); the hook (src/verif.rs and guarded calls in src/tokinizer/rule_tokinizer/mod.rs) records the rule engine's steps per thread; it feeds only the non-gating Pipeline conformance reported in C01's evidence",
+            "enable": "rustflags --cfg smartcalc_verif in harness/.cargo/config.toml (the harness builds /repo as a path dependency); the hook (src/verif.rs and guarded calls in src/tokinizer/rule_tokinizer/mod.rs) records the rule engine's steps per thread; it feeds only the non-gating Pipeline conformance reported in C01's evidence; a second guarded hook (Tokinizer::new, Tokinizer::add_token_location) records the tokenizers' span claims for the non-gating Claims conformance reported in C17's evidence",
             "baseline_off_cmd": "cd /repo && cargo test --workspace --no-fail-fast --offline",
-            "source_commits": ["4c682d7"],
+            "source_commits": ["4c682d7", "8ca6c13"],
             "add_only": True,
         },
         "engines": [
             {"name": "tlc", "path": "spec/", "serves_properties": [c["property_id"] for c in checks], "kind_free_text": "TLA+ specification checked / enumerated / used for trace validation by TLC 1.8.0"},
             {"name": "apalache", "path": "spec/lemmas/", "serves_properties": ["C09", "C10", "C11"], "kind_free_text": "Apalache 0.58 discharges unbounded integer lemmas about the specification's oracles as single-state checks (duration decomposition, clock round trip, calendar closed form); they strengthen the oracle, no verdict about the code depends on them"},
             {"name": "pipeline", "path": "spec/Pipeline.tla", "serves_properties": ["C01"], "kind_free_text": "implementation-shaped model of the rule engine (scanner, rule order, restart schedule), model-checked on the actual rule table and bound to the code by the cfg(smartcalc_verif) hook and spec/PipelineTrace.tla; non-gating"},
+            {"name": "claims", "path": "spec/Claims.tla", "serves_properties": ["C17"], "kind_free_text": "implementation-shaped model of the tokenizers' claim discipline (the guard of add_token_location), model-checked (the guard is not the disjointness test) and bound to the code by the cfg(smartcalc_verif) hook and spec/ClaimsTrace.tla; non-gating"},
+            {"name": "config", "path": "spec/Config.tla", "serves_properties": ["C06", "C09", "C10", "C11", "C12", "C19"], "kind_free_text": "the configuration tables as a model: chains and bridges of the unit families against the standard definitions, month and word tables, currency and zone tables, checked by TLC on config.json of the tree under test; the word-table part gates C09 / C10 / C19, the rest is reported"},
+            {"name": "kinds", "path": "spec/Kinds.tla", "serves_properties": ["C01"], "kind_free_text": "descriptive model of the kind algebra A op B, replayed into the code in both languages; non-gating (drift)"},
             {"name": "harness", "path": "harness/", "serves_properties": [c["property_id"] for c in checks], "kind_free_text": "Rust executor linking /repo as a path dependency; worker processes with panic, crash and hang capture"},
         ],
         "checks": checks,
